@@ -31,12 +31,13 @@ CONTROL = r"^std::process::exit"          # must be found by the same scan (posi
 SEVERITY = {"hash": 4, "lines": 3, "text": 2, "factors": 1, "fixed": 0, "steps": 0}
 LISTY = frozenset(["iter", "map", "filter", "filter_map", "collect", "cloned", "chain", "extend", "push", "ite", "sorted",
                    "sort_by_key", "retain", "map_inplace", "rev", "skip", "take", "enumerate", "zip", "iter_mut", "copied",
-                   "subrange", "slice_from", "upd_first", "setidx", "take_while", "skip_while", "map_while", "step_by"])
+                   "subrange", "slice_from", "upd_first", "setidx", "take_while", "skip_while", "map_while", "step_by",
+                   "dedup_consecutive"])
 HASHY = frozenset(["collect_set", "eiter", "emap", "eset", "collect_map", "empty_set", "empty_map", "setinsert", "mapinsert",
                    "mapremove", "set_insert_new"])
 SENSITIVE = frozenset(["index", "first_val", "last_val", "find_val", "position_val", "upd_first", "fold", "foldgen", "fold_last",
                        "foldres", "first_err", "loop_pick", "skip", "take", "subrange", "slice_from", "enumerate", "setidx",
-                       "havoc", "unsupported", "take_while", "skip_while", "map_while", "step_by"])
+                       "havoc", "unsupported", "take_while", "skip_while", "map_while", "step_by", "dedup_consecutive"])
 COMMUTATIVE = frozenset(["add-recurrence", "becomes-present", "keyed-accumulation", "empty-or-sum", "record-fields", "option-sum",
                          "max-recurrence", "min-recurrence", "stays-true"])
 
@@ -722,6 +723,14 @@ def h4(ctx, rep, entries, O):
                     nsens += 1
                     bad.setdefault("unmodelled:%s/%s" % (t.a[0].rsplit("::", 1)[-1], O.of(ordered[0])), t)
                 continue
+            if t.op == "havoc" and t.a and isinstance(t.a[0], tm.T) and t.a[0].op == "call" and isinstance(t.a[0].a[0], str):
+                # a list in line / hash order rewritten in place by a function without a model (`dedup`, `swap`, ..)
+                prior = [x.a[1] for x in t.a[0].a[1:] if isinstance(x, tm.T) and x.op == "prior" and len(x.a) > 1
+                         and isinstance(x.a[1], tm.T) and O.of(x.a[1]) in ("hash", "lines")]
+                if prior:
+                    nsens += 1
+                    bad.setdefault("unmodelled:%s/%s" % (t.a[0].a[0].rsplit("::", 1)[-1], O.of(prior[0])), t)
+                    continue
             if t.op not in SENSITIVE:
                 continue
             lst = None
@@ -760,6 +769,10 @@ def h4(ctx, rep, entries, O):
                     and all_equal_test(t, par):
                 # `any(x in L: f(x) != f(L[0]))`: true iff the f-values are not all equal, whichever element comes first
                 adm["all-equal-test"] = adm.get("all-equal-test", 0) + 1
+                continue
+            if t.op == "dedup_consecutive" and isinstance(t.a[0], tm.T) and t.a[0].op == "sorted":
+                # sort + dedup: the set of values in canonical order
+                adm["sorted-dedup"] = adm.get("sorted-dedup", 0) + 1
                 continue
             if t.op in ("slice_from", "skip") and len(t.a) > 1 and t.a[1] is tm.ONE and tail_all_equal(t, par):
                 # `rest.iter().any(|x| f(x) != f(first))` with (first, rest) = split_first(L): the all-equal test again
